@@ -8,8 +8,11 @@ SRC="$1"; ID="$2"; WT="$3"; shift 3
 PROPS="$@"
 OUT=/verif/seeded/$ID
 mkdir -p "$OUT"
-cp "$SRC/patch.diff" "$SRC/demo.rs" "$OUT/"
-cp "$SRC/meta.json" "$OUT/agent_meta.json"
+# the check phase works on what the confirm phase stored (the source directory may be gone or reused)
+if [ "${PHASE:-both}" != check ]; then
+  cp "$SRC/patch.diff" "$SRC/demo.rs" "$OUT/"
+  cp "$SRC/meta.json" "$OUT/agent_meta.json"
+fi
 export CARGO_NET_OFFLINE=true
 # PHASE=confirm: only the confirmation in the scratch worktree (can run in parallel for several
 # mutants); PHASE=check: only the checks against /repo (needs the confirm phase's record);
